@@ -24,7 +24,10 @@ class CaseNode(BaseNode):
             self.case_id = env.branching.register_case()  # set node case ID
             self.case_type = m.group(2)
             self.name = f"{m.group(1)}{str(self.case_id)}" 
-            if m.group(2) == Keyword.CASE:
+            if m.group(2) == Keyword.CASE and env.branching.false_case(self.indent):
+                # expression is not evaluated if some of the enclosing cases is not selected
+                self.value = BooleanType(False)
+            elif m.group(2) == Keyword.CASE:
                 with LogicalSolver(env) as s:
                     if self.value_expr:
                         self.value = s.solve(self.value_expr)
